@@ -166,6 +166,21 @@ func c12(x *mon.Ctx) {
 	x.Level = "exploration"
 	x.Rule = "(a) every world of the shared corpus (honest + one injected fault from the C01/C02/C03/C05/C06 fault families) is verified under all four option combinations: accept(coll,crl) => accept(coll) => accept(base), and (crl without coll) rejects; (b) a recording getter checks: no request at all with collateral off, CRL endpoints only with revocation on, TCB-Info URL names the FMSPC that the reference DER decoder reads from the leaf (also with permuted extension elements), PCK-CRL URL names platform/processor according to the leaf's issuer; (c) histories of 2-6 verifications (different worlds, option settings toggled between calls) through ONE verify.Options value: each verdict must equal the verdict of the same call on a fresh value; (d) one wall-clock history with Options.Now left nil across a certificate's expiry. distinct = (world, option combination) / distinct history."
 	x.Assume = []string{"(d) reads the wall clock; if the first call came after the expiry it is inconclusive, never a violation"}
+	// ---- a getter that re-enters the library with the same options value (see reentrantCollaborators): the verdict for the outer
+	//      quote depends on that quote, not on the one verified in between
+	for k := 0; k < x.Pick(3, 12); k++ {
+		r := x.Rand(fmt.Sprint("reentrant-getter", k))
+		a := richHonest(r)
+		b := world.Honest(r, world.HonestOpts{Platform: a.P})
+		honest := a.Case(world.LColl, "honest", "reentrant-getter")
+		w := a.Clone()
+		w.Q.Chain = b.Q.Chain
+		reentrantCollaborators(x, "reentrant-getter", honest, w.Case(world.LColl, "chain-of-an-untrusted-lookalike-pki", fmt.Sprint("reentrant-getter", k)))
+		w = b.Clone()
+		w.Roots = a.Roots
+		reentrantCollaborators(x, "reentrant-getter", honest, w.Case(world.LColl, "quote-entirely-from-an-untrusted-pki", fmt.Sprint("reentrant-getter", k)))
+	}
+	x.Require("reentrant-getter", 0, 16, 24)
 	// ---- (a) + (b)
 	nw := x.Pick(150, 5000)
 	combos := []struct {
